@@ -1241,3 +1241,24 @@ func init() {
 	theory["strconv.ParseInt"] = parse(true)
 	theory["strconv.ParseUint"] = parse(false)
 }
+
+// ---------------- the service module as seen from oracle / random (expected-keeper interface ServiceKeeper): reading a
+// request context is a pure function of the service module's state and the id - two reads with no other call into the
+// service keeper in between give the same answer (svcEpoch is a ghost that every other ServiceKeeper call advances).
+func init() {
+	theory["ServiceKeeper.GetRequestContext"] = func(x *Exec, f *Frame, st *State, c *CallInfo) Val {
+		id := c.T(2)
+		tup, _ := c.ResTyp.(*types.Tuple)
+		if id == nil || tup == nil || tup.Len() != 2 {
+			return x.freshVal(st, c.ResTyp, "reqctx")
+		}
+		s := SortOf(tup.At(0).Type())
+		if s == nil {
+			return x.freshVal(st, c.ResTyp, "reqctx")
+		}
+		ep := x.ghost(st, "svcEpoch", SInt)
+		v := UF("svc_ctx<"+s.Name+">", s, ep, id)
+		st.assume(TypeInv(v, tup.At(0).Type(), 0))
+		return &TupleVal{[]Val{v, UF("svc_ctx_found", SBool, ep, id)}}
+	}
+}
